@@ -22,7 +22,8 @@ var registry = map[string]func() Check{}
 
 type SeqCheck struct {
 	Prop       string
-	Ideal      SeqModel
+	Ideal      SeqModel // quick tier
+	IdealDeep  SeqModel // thorough tier (optional)
 	IdealProps []string
 	IdealInvs  []string
 	// E1
@@ -35,6 +36,9 @@ type SeqCheck struct {
 	SimNumThorough int
 	Level          string
 	Assumptions    []string
+	// histories always executed (the minimal reproductions of listed findings
+	// and other hand-picked corner cases); every step is judged
+	Probes []emitted
 	// extra drivers (crafted stores, probes) contributing observations
 	Extra func(e *Env) ([]*Obs, error)
 }
@@ -50,7 +54,11 @@ func (c *SeqCheck) Run(e *Env) (*Outcome, *Evidence, error) {
 		idealTimeout = 40 * time.Minute
 	}
 	invs := append([]string{"ReplayNeverFails", "TypeOK"}, c.IdealInvs...)
-	ideal, err := e.runTLC("ideal", "MC_Seq", c.Ideal.cfg("{}", "none", c.IdealProps, invs), 12, idealTimeout)
+	idealModel := c.Ideal
+	if thorough && c.IdealDeep.Name != "" {
+		idealModel = c.IdealDeep
+	}
+	ideal, err := e.runTLC("ideal", "MC_Seq", idealModel.cfg("{}", "none", c.IdealProps, invs), 12, idealTimeout)
 	if err != nil {
 		return nil, nil, err
 	}
@@ -59,7 +67,7 @@ func (c *SeqCheck) Run(e *Env) (*Outcome, *Evidence, error) {
 	}
 	cov["states"] = ideal.Distinct
 	cov["transitions"] = ideal.Generated
-	cov["ideal_model"] = map[string]any{"model": c.Ideal.Name, "distinct": ideal.Distinct, "generated": ideal.Generated,
+	cov["ideal_model"] = map[string]any{"model": idealModel.Name, "bounds": idealModel.bounds(), "distinct": ideal.Distinct, "generated": ideal.Generated,
 		"depth": ideal.Depth, "properties": c.IdealProps, "invariants": invs, "wall_s": ideal.WallSeconds}
 
 	// 2. generation from the as-is model
@@ -91,7 +99,7 @@ func (c *SeqCheck) Run(e *Env) (*Outcome, *Evidence, error) {
 		}
 		obs = append(obs, o...)
 		histories += ds.Histories
-		cov["e1"] = map[string]any{"model": gen.Name, "asis_states": total, "states_driven": len(states),
+		cov["e1"] = map[string]any{"model": gen.Name, "bounds": gen.bounds(), "asis_states": total, "states_driven": len(states),
 			"steps": len(o), "exhaustive": len(states) == total, "wall_s": ds.Wall,
 			"asis_generated": g.Generated}
 	}
@@ -141,6 +149,15 @@ func (c *SeqCheck) Run(e *Env) (*Outcome, *Evidence, error) {
 		cov["e2"] = map[string]any{"model": c.Sim.Name, "walks": len(walks), "depth": c.Sim.Depth, "steps": len(o), "wall_s": ds.Wall}
 	}
 
+	if len(c.Probes) > 0 {
+		o, ds, err := e.driveStates("probe", c.Probes, true, 8)
+		if err != nil {
+			return nil, nil, err
+		}
+		obs = append(obs, o...)
+		histories += ds.Histories
+		cov["probe_steps"] = len(o)
+	}
 	if c.Extra != nil {
 		o, err := c.Extra(e)
 		if err != nil {
